@@ -372,6 +372,15 @@ fn families(thorough: bool, ls: &LineSets) -> Vec<(&'static str, Vec<Config>)> {
     let mut b_sub = vec![];
     two_lines(true, 1, if thorough { &ls.core } else { &m32 }, &mut b_sub);
     two_lines(true, 2, if thorough { &ls.mini } else { &ls.tiny }, &mut b_sub);
+    if thorough {
+        // every line of the full set next to every tiny line, both orders
+        for l1 in &ls.full {
+            for l2 in &ls.tiny {
+                b_sub.push(Config::single(true, 1, content(&[l1, l2])));
+                b_sub.push(Config::single(true, 1, content(&[l2, l1])));
+            }
+        }
+    }
     fams.push(("B-sub:one-file-two-lines", b_sub));
     // C: two files with one line each
     let mut c = vec![];
@@ -391,6 +400,10 @@ fn families(thorough: bool, ls: &LineSets) -> Vec<(&'static str, Vec<Config>)> {
     let mut c_sub = vec![];
     let c_set: &[String] = if thorough { &ls.core } else { &m32 };
     pairs(true, 1, 2, c_set, c_set, &mut c_sub);
+    if thorough {
+        pairs(true, 1, 2, &ls.full, &ls.tiny, &mut c_sub);
+        pairs(true, 1, 2, &ls.tiny, &ls.full, &mut c_sub);
+    }
     fams.push(("C-sub:two-files-one-line-each", c_sub));
     // D: three files with one line each (arrangement top only)
     let mut d = vec![];
@@ -911,6 +924,8 @@ fn line_form(line: &str) -> String {
     out
 }
 
+const CR_AT_EOF_SIGNATURE: &str = "C28/ignore-file-ends-with-CR-without-LF";
+
 struct Mismatch {
     signature: String,
     message: String,
@@ -946,7 +961,7 @@ fn compare(cfg: &Config, q: &Query, rel_path: &str, git: &GitAnswer, jj: bool, j
             && let Ok((jj_fixed, _)) = catch(|| jj_ignored(&chains, q))
             && jj_fixed == git.ignored
         {
-            signature = "C28/ignore-file-ends-with-CR-without-LF".to_string();
+            signature = CR_AT_EOF_SIGNATURE.to_string();
         }
     }
     let message = format!(
@@ -1367,6 +1382,8 @@ fn main() {
     let mut total = Tally::default();
     let mut family_counts = serde_json::Map::new();
     let cross_checked = Counter::new();
+    // violations other than the one attributed cause (vacuity is only enforced without them)
+    let other_violations = Counter::new();
     for (name, cfgs) in &fams {
         let tally = cfgs
             .par_iter()
@@ -1385,6 +1402,9 @@ fn main() {
                     run_top(cfg, &env, &layouts, ctx.thorough(), &mut tally)
                 };
                 for m in found {
+                    if m.signature != CR_AT_EOF_SIGNATURE {
+                        other_violations.inc();
+                    }
                     ctx.violation(&m.signature, m.message, m.case);
                 }
                 if tally.git_ignored > before + 10 && samples.wants_more() && i % 7 == 3 {
@@ -1431,7 +1451,10 @@ fn main() {
                     snap_tracked.add(t as u64);
                     snap_ignored.add(i as u64);
                 }
-                Err(m) => ctx.violation(&m.signature, m.message, m.case),
+                Err(m) => {
+                    other_violations.inc();
+                    ctx.violation(&m.signature, m.message, m.case)
+                }
             }
         }
     });
@@ -1467,7 +1490,7 @@ fn main() {
     let dironly_decides = flags(&|p| p.ends_with('/'));
     let globstar_decides = flags(&|p| p.contains("**"));
     let escape_decides = flags(&|p| p.contains('\\'));
-    if ctx.violation_count() == 0 {
+    if other_violations.get() == 0 {
         for (what, n) in [
             ("negation", neg_decides),
             ("anchored", anchored_decides),
